@@ -503,6 +503,42 @@ unsigned short __wrap_ares_generate_new_id(ares_rand_state *state)
   return (unsigned short)(rng_next() >> 40);
 }
 
+/* Optional (--wrap=ares_htable_hash_FNV1a --wrap=ares_htable_hash_FNV1a_casecmp):
+ * the library seeds every hash table from heap/stack addresses and time(); the
+ * bucket layout decides how many bucket lists get allocated, so allocation
+ * counts (failalloc positions, ALLOCS total) vary from run to run unless the
+ * seed is pinned.  Same FNV-1a as the library, seed ignored. */
+unsigned int __wrap_ares_htable_hash_FNV1a(const unsigned char *key,
+                                           size_t key_len, unsigned int seed)
+{
+  unsigned int hv = 2166136261U;
+  size_t       i;
+  (void)seed;
+  for (i = 0; i < key_len; i++) {
+    hv ^= (unsigned int)key[i];
+    hv *= 16777619U;
+  }
+  return hv;
+}
+
+unsigned int __wrap_ares_htable_hash_FNV1a_casecmp(const unsigned char *key,
+                                                   size_t       key_len,
+                                                   unsigned int seed)
+{
+  unsigned int hv = 2166136261U;
+  size_t       i;
+  (void)seed;
+  for (i = 0; i < key_len; i++) {
+    unsigned char c = key[i];
+    if (c >= 'A' && c <= 'Z') {
+      c = (unsigned char)(c + 32);
+    }
+    hv ^= (unsigned int)c;
+    hv *= 16777619U;
+  }
+  return hv;
+}
+
 /* ------------------------------------------------------------------------- */
 /* Counting / failing allocator                                               */
 /* ------------------------------------------------------------------------- */
@@ -543,8 +579,25 @@ static void *sim_malloc(size_t size)
   return p;
 }
 
+/* Under ASan: is ptr a live heap block?  If not (double free, wild pointer) the
+ * accounting is skipped and the pointer is handed to free()/realloc() as is, so
+ * that the sanitizer reports the library's error with its proper name. */
+int __sanitizer_get_ownership(const volatile void *p) __attribute__((weak));
+
+static int block_is_live(void *ptr)
+{
+  if (__sanitizer_get_ownership != NULL) {
+    return __sanitizer_get_ownership(ptr);
+  }
+  return 1;
+}
+
 static void sim_free(void *ptr)
 {
+  if (ptr != NULL && !block_is_live(ptr)) {
+    free(ptr);
+    return;
+  }
   if (ptr != NULL) {
     g_live_blocks--;
     g_live_bytes -= (long)malloc_usable_size(ptr);
@@ -558,6 +611,9 @@ static void *sim_realloc(void *ptr, size_t size)
   size_t old = 0;
   if (alloc_should_fail()) {
     return NULL;
+  }
+  if (ptr != NULL && !block_is_live(ptr)) {
+    return realloc(ptr, size);
   }
   if (ptr != NULL) {
     old = malloc_usable_size(ptr);
